@@ -1,0 +1,123 @@
+/*
+ * Atree - Scalable Arrays and Ordered Maps
+ *
+ * Copyright Flow Foundation
+ *
+ * Licensed under the Apache License, Version 2.0 (the "License");
+ * you may not use this file except in compliance with the License.
+ * You may obtain a copy of the License at
+ *
+ *   http://www.apache.org/licenses/LICENSE-2.0
+ *
+ * Unless required by applicable law or agreed to in writing, software
+ * distributed under the License is distributed on an "AS IS" BASIS,
+ * WITHOUT WARRANTIES OR CONDITIONS OF ANY KIND, either express or implied.
+ * See the License for the specific language governing permissions and
+ * limitations under the License.
+ */
+
+//go:build verif
+
+package atree
+
+//@ # ---------------------------------------------------------------- map_metadata_slab.go, map_data_slab.go (C02 C03 C05 C06 C09)
+
+//@ pred mhdrOf(x MapSlab) = ite(is(x, *MapDataSlab), as(x, *MapDataSlab).header, as(x, *MapMetaDataSlab).header)
+//@ pred isMapSlab(c MapSlab) = c != nil && (is(c, *MapDataSlab) || is(c, *MapMetaDataSlab))
+//@ pred sameKindM(x MapSlab, y MapSlab) = (is(x, *MapDataSlab) && is(y, *MapDataSlab)) || (is(x, *MapMetaDataSlab) && is(y, *MapMetaDataSlab))
+//@ pred mhdrBand(h MapSlabHeader) = minThreshold <= h.size && h.size <= maxThreshold
+
+//@ # index slab of a map: first keys strictly ascending, own first key = first child's, size = prefix + 18 per header
+//@ pred wfMM(m *MapMetaDataSlab) = m != nil && len(m.childrenHeaders) >= 1 &&
+//@      (forall i, j :: 0 <= i && i < j && j < len(m.childrenHeaders) ==> m.childrenHeaders[i].firstKey < m.childrenHeaders[j].firstKey) &&
+//@      m.header.firstKey == m.childrenHeaders[0].firstKey && m.header.size == 12 + 18 * len(m.childrenHeaders)
+
+//@ # without the ordering clause (ordering across children needs the key-range invariant of the subtrees, which is composition)
+//@ pred wfMM0(m *MapMetaDataSlab) = m != nil && len(m.childrenHeaders) >= 1 &&
+//@      m.header.firstKey == m.childrenHeaders[0].firstKey && m.header.size == 12 + 18 * len(m.childrenHeaders)
+
+//@ pred mAgree(m *MapMetaDataSlab) = forall k :: 0 <= k && k < len(m.childrenHeaders) ==>
+//@      isMapSlab(sto[m.childrenHeaders[k].slabID]) && sto[m.childrenHeaders[k].slabID] != m && mhdrOf(sto[m.childrenHeaders[k].slabID]) == m.childrenHeaders[k]
+//@ pred mDistinct(m *MapMetaDataSlab) = forall i, j :: 0 <= i && i < j && j < len(m.childrenHeaders) ==> m.childrenHeaders[i].slabID != m.childrenHeaders[j].slabID
+//@ pred mLinked(m *MapMetaDataSlab) = sto[m.header.slabID] == m && m.header.slabID != SlabIDUndefined && mAgree(m) && mDistinct(m)
+
+//@ pred inBandMM(m *MapMetaDataSlab) = minThreshold <= m.header.size && m.header.size <= maxThreshold
+//@ pred canLendMM(m *MapMetaDataSlab, size int) = m.header.size >= 18 * ((size + 17) / 18) && m.header.size - 18 * ((size + 17) / 18) > minThreshold
+
+//@ func (m *MapMetaDataSlab) CanLendToLeft(size) (r)  serves C05
+//@   requires size <= minThreshold
+//@   ensures r == canLendMM(m, size)
+//@   pure
+
+//@ func (m *MapMetaDataSlab) CanLendToRight(size) (r)  serves C05
+//@   requires size <= minThreshold
+//@   ensures r == canLendMM(m, size)
+//@   pure
+
+//@ func (m *MapMetaDataSlab) getChildSlabByDigest(storage, hkey, key) (child, idx, err)  serves C02 C18
+//@   requires wfMM(m) && storage != nil
+//@   ensures[C02] err == nil ==> 0 <= idx && idx < len(m.childrenHeaders) && m.childrenHeaders[idx].firstKey <= hkey &&
+//@        (idx + 1 < len(m.childrenHeaders) ==> hkey < m.childrenHeaders[idx + 1].firstKey) && child == sto[m.childrenHeaders[idx].slabID] && child != nil
+//@   ensures[C18] hkey < m.childrenHeaders[0].firstKey ==> err != nil && isUser(err) && isKeyNotFound(err)
+//@   ensures[C18] err != nil ==> categorised(err)
+//@   modifies alloc
+//@   loop 1: invariant 0 <= i && i <= j && j <= len(m.childrenHeaders) && -1 <= ans && ans < len(m.childrenHeaders) && ans == i - 1 &&
+//@        (forall k :: 0 <= k && k < i ==> m.childrenHeaders[k].firstKey <= hkey) && (forall k :: j <= k && k < len(m.childrenHeaders) ==> m.childrenHeaders[k].firstKey > hkey)
+
+//@ func (m *MapMetaDataSlab) updateChildrenHeadersAfterMerge(merged, li, ri)  serves C02 C05
+//@   requires m != nil && 0 <= li && ri == li + 1 && ri < len(m.childrenHeaders)
+//@   ensures len(m.childrenHeaders) == len(old(m.childrenHeaders)) - 1 && m.childrenHeaders[li] == merged
+//@   ensures forall k :: 0 <= k && k < li ==> m.childrenHeaders[k] == old(m.childrenHeaders)[k]
+//@   ensures forall k :: li < k && k < len(m.childrenHeaders) ==> m.childrenHeaders[k] == old(m.childrenHeaders)[k + 1]
+//@   modifies m.childrenHeaders, ghost.touched
+
+//@ func (m *MapMetaDataSlab) Merge(slab) (err)  serves C02 C05 C06
+//@   requires is(slab, *MapMetaDataSlab) && m != slab && wfMM(m) && wfMM(as(slab, *MapMetaDataSlab)) &&
+//@        m.childrenHeaders[len(m.childrenHeaders) - 1].firstKey < as(slab, *MapMetaDataSlab).childrenHeaders[0].firstKey &&
+//@        m.header.size + as(slab, *MapMetaDataSlab).header.size <= 4294967295
+//@   ensures err == nil && wfMM(m) && m.header.size == old(m.header.size) + old(as(slab, *MapMetaDataSlab).header.size) - 12 && m.header.slabID == old(m.header.slabID) && m.header.firstKey == old(m.header.firstKey)
+//@   ensures[C02] len(m.childrenHeaders) == len(old(m.childrenHeaders)) + len(old(as(slab, *MapMetaDataSlab).childrenHeaders)) &&
+//@        (forall k :: 0 <= k && k < len(old(m.childrenHeaders)) ==> m.childrenHeaders[k] == old(m.childrenHeaders)[k]) &&
+//@        (forall k :: 0 <= k && k < len(old(as(slab, *MapMetaDataSlab).childrenHeaders)) ==> m.childrenHeaders[len(old(m.childrenHeaders)) + k] == old(as(slab, *MapMetaDataSlab).childrenHeaders)[k])
+//@   modifies m.childrenHeaders, m.header, ghost.touched
+
+//@ func (m *MapMetaDataSlab) Split(storage) (left, right, err)  serves C02 C05 C06 C09
+//@   requires wfMM(m) && storage != nil && m.header.size > maxThreshold && m.header.size <= maxThreshold + 18
+//@   ensures err != nil ==> categorised(err)
+//@   ensures err == nil ==> left == m && is(right, *MapMetaDataSlab) && fresh(right)
+//@   ensures[C02] err == nil ==> len(m.childrenHeaders) + len(as(right, *MapMetaDataSlab).childrenHeaders) == len(old(m.childrenHeaders)) &&
+//@        (forall k :: 0 <= k && k < len(m.childrenHeaders) ==> m.childrenHeaders[k] == old(m.childrenHeaders)[k]) &&
+//@        (forall k :: 0 <= k && k < len(as(right, *MapMetaDataSlab).childrenHeaders) ==> as(right, *MapMetaDataSlab).childrenHeaders[k] == old(m.childrenHeaders)[len(m.childrenHeaders) + k])
+//@   ensures[C05] err == nil ==> inBandMM(m) && inBandMM(as(right, *MapMetaDataSlab))
+//@   ensures[C06] err == nil ==> wfMM(m) && wfMM(as(right, *MapMetaDataSlab)) && as(right, *MapMetaDataSlab).extraData == nil
+//@   ensures[C09] err == nil ==> m.header.slabID == old(m.header.slabID) && as(right, *MapMetaDataSlab).header.slabID.address == old(m.header.slabID.address) &&
+//@        as(right, *MapMetaDataSlab).header.slabID != SlabIDUndefined && sto[as(right, *MapMetaDataSlab).header.slabID] == nil
+//@   modifies m.childrenHeaders, m.header, ghost.touched, alloc
+
+//@ func (m *MapMetaDataSlab) LendToRight(slab) (err)  serves C02 C05 C06
+//@   requires is(slab, *MapMetaDataSlab) && m != slab && wfMM(m) && wfMM(as(slab, *MapMetaDataSlab)) &&
+//@        m.childrenHeaders[len(m.childrenHeaders) - 1].firstKey < as(slab, *MapMetaDataSlab).childrenHeaders[0].firstKey
+//@   requires m.header.size <= maxThreshold && as(slab, *MapMetaDataSlab).header.size < minThreshold && canLendMM(m, minThreshold - as(slab, *MapMetaDataSlab).header.size)
+//@   ensures err == nil && wfMM(m) && wfMM(as(slab, *MapMetaDataSlab))
+//@   ensures[C05] inBandMM(m) && inBandMM(as(slab, *MapMetaDataSlab))
+//@   ensures[C02] len(m.childrenHeaders) + len(as(slab, *MapMetaDataSlab).childrenHeaders) == len(old(m.childrenHeaders)) + len(old(as(slab, *MapMetaDataSlab).childrenHeaders)) &&
+//@        len(m.childrenHeaders) <= len(old(m.childrenHeaders)) &&
+//@        (forall k :: 0 <= k && k < len(m.childrenHeaders) ==> m.childrenHeaders[k] == old(m.childrenHeaders)[k]) &&
+//@        (forall k :: 0 <= k && k < len(old(m.childrenHeaders)) - len(m.childrenHeaders) ==> as(slab, *MapMetaDataSlab).childrenHeaders[k] == old(m.childrenHeaders)[len(m.childrenHeaders) + k]) &&
+//@        (forall k :: 0 <= k && k < len(old(as(slab, *MapMetaDataSlab).childrenHeaders)) ==> as(slab, *MapMetaDataSlab).childrenHeaders[len(old(m.childrenHeaders)) - len(m.childrenHeaders) + k] == old(as(slab, *MapMetaDataSlab).childrenHeaders)[k])
+//@   ensures[C09] m.header.slabID == old(m.header.slabID) && as(slab, *MapMetaDataSlab).header.slabID == old(as(slab, *MapMetaDataSlab).header.slabID)
+//@   modifies m.childrenHeaders, m.header, as(slab, *MapMetaDataSlab).childrenHeaders, as(slab, *MapMetaDataSlab).header, ghost.touched
+
+//@ func (m *MapMetaDataSlab) BorrowFromRight(slab) (err)  serves C02 C05 C06
+//@   requires is(slab, *MapMetaDataSlab) && m != slab && wfMM(m) && wfMM(as(slab, *MapMetaDataSlab)) &&
+//@        m.childrenHeaders[len(m.childrenHeaders) - 1].firstKey < as(slab, *MapMetaDataSlab).childrenHeaders[0].firstKey
+//@   requires as(slab, *MapMetaDataSlab).header.size <= maxThreshold && m.header.size < minThreshold && canLendMM(as(slab, *MapMetaDataSlab), minThreshold - m.header.size)
+//@   ensures err == nil && wfMM(m) && wfMM(as(slab, *MapMetaDataSlab))
+//@   ensures[C05] inBandMM(m) && inBandMM(as(slab, *MapMetaDataSlab))
+//@   ensures[C02] len(m.childrenHeaders) + len(as(slab, *MapMetaDataSlab).childrenHeaders) == len(old(m.childrenHeaders)) + len(old(as(slab, *MapMetaDataSlab).childrenHeaders)) &&
+//@        len(m.childrenHeaders) >= len(old(m.childrenHeaders)) &&
+//@        (forall k :: 0 <= k && k < len(old(m.childrenHeaders)) ==> m.childrenHeaders[k] == old(m.childrenHeaders)[k]) &&
+//@        (forall k :: len(old(m.childrenHeaders)) <= k && k < len(m.childrenHeaders) ==> m.childrenHeaders[k] == old(as(slab, *MapMetaDataSlab).childrenHeaders)[k - len(old(m.childrenHeaders))]) &&
+//@        (forall k :: 0 <= k && k < len(as(slab, *MapMetaDataSlab).childrenHeaders) ==> as(slab, *MapMetaDataSlab).childrenHeaders[k] == old(as(slab, *MapMetaDataSlab).childrenHeaders)[k + len(m.childrenHeaders) - len(old(m.childrenHeaders))])
+//@   ensures[C09] m.header.slabID == old(m.header.slabID) && as(slab, *MapMetaDataSlab).header.slabID == old(as(slab, *MapMetaDataSlab).header.slabID)
+//@   modifies m.childrenHeaders, m.header, as(slab, *MapMetaDataSlab).childrenHeaders, as(slab, *MapMetaDataSlab).header, ghost.touched
